@@ -110,6 +110,22 @@ def slug(msg):
 # ------------------------------------------------------------------------------------------------
 # part B: renderer
 
+def count_docs(max_nodes, leaves, unary):
+    """number of documents with <= max_nodes nodes (independent of the TLA+ enumeration: closed recurrence)"""
+    from functools import lru_cache
+
+    @lru_cache(None)
+    def T(n):
+        return 0 if n <= 0 else leaves if n == 1 else unary * T(n - 1) + S(n - 1, 2)
+
+    @lru_cache(None)
+    def S(n, k):      # sequences of at least k documents with n nodes in total
+        if n <= 0:
+            return 1 if (n == 0 and k <= 0) else 0
+        return sum(T(f) * S(n - f, max(k - 1, 0)) for f in range(1, n + 1))
+    return sum(T(n) for n in range(1, max_nodes + 1))
+
+
 def render_part(ctx):
     cfg = "Render_q.cfg" if ctx.quick else "Render_t.cfg"
     r = tlc("Render", cfg=cfg, cwd=CODEC, workers=8 if ctx.quick else 12, timeout=2400, heap="10g")
@@ -121,8 +137,11 @@ def render_part(ctx):
     log(f"Render: {r.distinct} states in {r.seconds:.0f}s")
     recs = harness_json([VFMT, "render", rows], timeout=1200)
     s = recs[-1]
-    if s["rows"] != r.distinct - 1 - 12 * 8:
-        raise ToolError(f"render replay saw {s['rows']} rows, TLC has {r.distinct} states (1 root + 96 buckets + rows)")
+    expected_docs = count_docs(int(re.search(r"MaxNodes = (\d+)", open(os.path.join(CODEC, cfg)).read()).group(1)),
+                               int(re.search(r"NTexts = (\d+)", open(os.path.join(CODEC, cfg)).read()).group(1)) + 3, 3)
+    if s["rows"] != 12 * expected_docs:
+        raise ToolError(f"render replay saw {s['rows']} rows; there are {expected_docs} documents x 12 widths (TLC: {r.distinct} states)")
+    ctx.add("render_documents", expected_docs)
     ctx.add("render_rows_replayed", s["rows"])
     ctx.add("traces_validated_against_impl", s["rows"] - s["mismatch"] - s["panics"])
     ctx.extra["render"] = s
